@@ -1,0 +1,27 @@
+//go:build verif
+
+package pool
+
+// Add-only verification hook for property C01 (no address is held by two
+// subscribers). Compiled only with `-tags verif`; returns copies, changes
+// nothing.
+
+// VerifLocalState returns a copy of this node's local pool: the allocations
+// (subscriber -> address), the reverse index (address -> subscriber) and the
+// free list (in allocation order).
+func (p *PeerPool) VerifLocalState() (allocations, ipToSub map[string]string, available []string) {
+	p.localPool.mu.Lock()
+	defer p.localPool.mu.Unlock()
+	allocations = make(map[string]string, len(p.localPool.allocations))
+	for s, ip := range p.localPool.allocations {
+		allocations[s] = ip.String()
+	}
+	ipToSub = make(map[string]string, len(p.localPool.ipToSub))
+	for ip, s := range p.localPool.ipToSub {
+		ipToSub[ip] = s
+	}
+	for _, ip := range p.localPool.available {
+		available = append(available, ip.String())
+	}
+	return allocations, ipToSub, available
+}
